@@ -206,6 +206,21 @@ func derivesFrom(p *Prog, v ssa.Value, pred func(ssa.Value) bool) bool {
 					return true
 				}
 			}
+		case *ssa.Call:
+			// pure selection helpers (min/max) and builtins pass their operands through
+			pass := false
+			if _, ok := x.Common().Value.(*ssa.Builtin); ok {
+				pass = true
+			} else if sc := x.Common().StaticCallee(); sc != nil && (isMinFn(sc) || isMaxFn(sc)) {
+				pass = true
+			}
+			if pass {
+				for _, a := range x.Common().Args {
+					if rec(a, d+1) {
+						return true
+					}
+				}
+			}
 		}
 		return false
 	}
